@@ -231,3 +231,41 @@ End TwoD.
 Example haar2d_example :
   haar2d 2 2 [[1; 2]; [3; 5]] = [[11; 3]; [5; 1]] /\ ihaar2d 2 2 [[11; 3]; [5; 1]] = [[1; 2]; [3; 5]].
 Proof. vm_compute. split; reflexivity. Qed.
+
+(* ---------- energy of the 2-D transform: each pass doubles the sum of squares, so haar multiplies it by 4 (and the
+   energy-preserving variant, which halves the coefficients, conserves it) ---------- *)
+Definition sumsq2 (rows : list (list Z)) : Z := sumZ (map sumsq rows).
+
+Lemma sumZ_app' a b : sumZ (a ++ b) = sumZ a + sumZ b.
+Proof. induction a as [|x a IH]; [reflexivity|]. cbn [app sumZ fold_right] in *. unfold sumZ in *. lia. Qed.
+
+Lemma sumsq2_transpose w : forall rows, Forall (fun r => length r = w) rows -> sumsq2 (transpose w rows) = sumsq2 rows.
+Proof.
+  induction w as [|w IH]; intros rows F.
+  - cbn [transpose]. unfold sumsq2. cbn [map]. induction F as [|r rows Hr F IHF]; [reflexivity|].
+    cbn [map]. destruct r; [|discriminate]. unfold sumZ in *. cbn [fold_right]. unfold sumsq at 1. cbn. exact IHF.
+  - cbn [transpose]. unfold sumsq2 in *. cbn [map].
+    assert (F' : Forall (fun r => length r = w) (map (@tl Z) rows)).
+    { clear IH. induction F as [|r rows Hr F IHF]; cbn [map]; constructor; auto. destruct r; [discriminate|]. simpl in *. lia. }
+    unfold sumZ at 1. cbn [fold_right]. fold (sumZ (map sumsq (transpose w (map (@tl Z) rows)))).
+    rewrite (IH _ F'). clear IH F'.
+    induction F as [|r rows Hr F IHF]; [reflexivity|].
+    destruct r as [|x r]; [discriminate|]. cbn [map hd tl]. rewrite sumsq_cons.
+    unfold sumZ in *. cbn [fold_right]. rewrite sumsq_cons. lia.
+Qed.
+
+Lemma sumsq2_map_haar h n rows : rect h (2 * n) rows -> sumsq2 (map haar_row rows) = 2 * sumsq2 rows.
+Proof.
+  intros [_ F]. unfold sumsq2. induction F as [|r rows Hr F IH]; [reflexivity|]. cbn [map].
+  unfold sumZ in *. cbn [fold_right]. rewrite (haar_row_energy r n Hr). lia.
+Qed.
+
+Theorem haar2d_energy m n f : rect (2 * m) (2 * n) f -> sumsq2 (haar2d (2 * n) (2 * m) f) = 4 * sumsq2 f.
+Proof.
+  intros Rf. unfold haar2d.
+  pose proof (RA m n f Rf) as R1. pose proof (RB m n f Rf) as R2. pose proof (RC m n f Rf) as R3.
+  rewrite sumsq2_transpose by (apply (proj2 R3)).
+  rewrite (sumsq2_map_haar (2 * n) m) by exact R2.
+  rewrite sumsq2_transpose by (apply (proj2 R1)).
+  rewrite (sumsq2_map_haar (2 * m) n) by exact Rf. lia.
+Qed.
